@@ -41,6 +41,15 @@ def doc_cases(ctx, n, profile=None, with_mut=True, with_soup=True, opts_fn=None)
         base = {'src': src, 'opts': opts, 'multi': rng.random() < 0.25, 'kind': 'doc', 'words': r.words}
         if base['multi']:
             base['thresh'] = rng.randint(0, 5)
+        if rng.random() < 0.12 and r.words:
+            # a replacement file whose phrases are words of the document (longer and shorter replacements)
+            ws = [w['w'] for w in r.words if w['role'] == 'copy']
+            if ws:
+                rules = []
+                for w in rng.sample(ws, min(2, len(ws))):
+                    rules.append(w + ' & ' + rng.choice([w + ' zum Beispiel', w + ' x', w[:2], '', w + ' ' + 'y' * 12]))
+                base['opts'] = dict(base['opts'], repl=rules)
+                base['words'] = None
         q = rng.random()
         if q < 0.08:
             # definitions supplied separately
